@@ -7,7 +7,7 @@ from __future__ import annotations
 
 import numpy as np
 
-from vlib.common import CaseResult, exc_mech, rng_for
+from vlib.common import CaseResult, exc_mech, off, rng_for
 
 ID = "C18"
 RULE = (
@@ -191,7 +191,7 @@ def case_mvn(case, res):
                 break
             if r < m and np.linalg.norm(shifts[i]) > 0:
                 res.mon("mvn_nullspace_invariance")
-                if abs(lp - lp0) > tol(exp) * (1 + np.linalg.norm(shifts[i]) ** 2 * normP):
+                if off(lp, lp0, tol(exp) * (1 + np.linalg.norm(shifts[i]) ** 2 * normP)):
                     res.violation("mvn-nullspace", f"{name}: log_prob changes by {lp - lp0} under a null-space shift", w)
                     break
             got.append(lp)
@@ -202,7 +202,7 @@ def case_mvn(case, res):
         a, b = np.asarray(vals[names[0]]), np.asarray(vals[n2])
         # rounding of the precision matrix is amplified by |null-space shift|^2 * ||P|| (as in the oracle comparison)
         amp = 1 + np.linalg.norm(shifts, axis=1) ** 2 * normP
-        if len(a) == len(b) == npts and np.any(np.abs(a - b) > 2 * np.array([tol(v) for v in a]) * amp):
+        if len(a) == len(b) == npts and np.any(off(a, b, 2 * np.array([tol(v) for v in a]) * amp)):
             res.violation("mvn-constructors", f"{names[0]} and {n2} disagree: {a.tolist()} vs {b.tolist()}", w)
     # batch shapes: loc batch (3,) or (2,3), prec unbatched or batched
     bs = [(), (3,), (2, 3)][case["idx"] % 3]
@@ -217,7 +217,7 @@ def case_mvn(case, res):
         else:
             for ix in np.ndindex(*bs):
                 exp, *_ = oracle_logprob(xb[ix], locb[ix], P, r)
-                if abs(float(lp[ix]) - exp) > tol(exp):
+                if off(float(lp[ix]), exp, tol(exp)):
                     res.violation("mvn-logprob", f"batched log_prob[{ix}]={float(lp[ix])} vs {exp}", w)
                     break
     if r < m and np.any(np.linalg.norm(shifts, axis=1) > 0):
@@ -285,7 +285,7 @@ def case_mvn_sample(case, res):
     if r < m:
         leak = np.abs(sc @ Q0).max()
         scale = np.abs(sc).max()
-        if leak > (1e-9 if x64 else 2e-4) * (1 + scale):
+        if not leak <= (1e-9 if x64 else 2e-4) * (1 + scale):
             res.violation("mvn-sample-nullspace", f"samples have a null-space component of size {leak} (sample scale {scale})", w)
     y = (sc @ Qr) * np.sqrt(lam_r)   # should be iid N(0,1)
     zs = []
@@ -297,7 +297,7 @@ def case_mvn_sample(case, res):
         for j in range(i + 1, min(r, 4)):
             zs.append(("cov", (i, j), np.mean(y[:, i] * y[:, j]) * np.sqrt(n)))
     res.mon("mvn_sample_covariance", len(zs))
-    bad = [(k, i, round(float(z), 1)) for k, i, z in zs if abs(z) > 6]
+    bad = [(k, i, round(float(z), 1)) for k, i, z in zs if not abs(z) <= 6]
     if bad:
         res.violation("mvn-sample-covariance", f"samples do not have the pseudo-inverse as covariance: z-scores {bad[:4]} "
                       f"(n={n}, m={m}, rank={r}, constructor #{how})", w)
@@ -328,7 +328,7 @@ def case_bijector(case, res):
     y_indep = jnp.asarray(np.asarray(y).copy())
     back = np.asarray(AlgebraicSigmoid().inverse(y_indep), np.float64)
     res.mon("bijector_roundtrip", len(x))
-    bad = np.where(np.abs(back - xs) > eps * (1 + xs ** 2) * (1 + np.abs(xs)) + 1e-30)[0]
+    bad = np.where(off(back, xs, eps * (1 + xs ** 2) * (1 + np.abs(xs)) + 1e-30))[0]
     if len(bad):
         i = bad[0]
         res.violation("bijector-roundtrip", f"inverse(forward({xs[i]})) = {back[i]}", {"x": float(xs[i]), "x64": x64})
@@ -336,7 +336,7 @@ def case_bijector(case, res):
     if np.any(np.abs(yy) >= 1) or np.any(np.sign(yy) != np.sign(xs)) or np.any(np.diff(yy[np.argsort(xs)]) < -1e-12):
         res.violation("bijector-range", "forward leaves (-1,1), flips signs or is not increasing", {"x64": x64})
     exp_y = xs / np.sqrt(1 + xs ** 2)
-    if np.any(np.abs(yy - exp_y) > 4 * eps):
+    if np.any(off(yy, exp_y, 4 * eps)):
         res.violation("bijector-forward", "forward(x) != x/sqrt(1+x^2)", {"x64": x64})
     # log-det-Jacobians vs autodiff derivatives
     fwd = jax.vmap(jax.grad(lambda t: b.forward(t)))(xj)
@@ -346,7 +346,7 @@ def case_bijector(case, res):
     tolj = (1e-9 if x64 else 2e-4)
     # the autodiff derivative 1/sqrt(1+x^2) - x^2/(1+x^2)^(3/2) cancels: relative error ~ eps * x^2 (oracle conditioning)
     cond = (2.3e-16 if x64 else 1.2e-7) * 8 * (1 + xs ** 2)
-    bad = np.where(np.abs(fldj - lf) > tolj * (1 + np.abs(lf)) + cond)[0]
+    bad = np.where(off(fldj, lf, tolj * (1 + np.abs(lf)) + cond))[0]
     if len(bad):
         i = bad[0]
         res.violation("bijector-fldj", f"forward_log_det_jacobian({xs[i]}) = {fldj[i]}, log|f'(x)| = {lf[i]}", {"x": float(xs[i]), "x64": x64})
@@ -354,7 +354,7 @@ def case_bijector(case, res):
     inv = jax.vmap(jax.grad(lambda t: b.inverse(t)))(yq)
     ildj = np.asarray(b.inverse_log_det_jacobian(yq, event_ndims=0), np.float64)
     li = np.log(np.abs(np.asarray(inv, np.float64)))
-    bad = np.where(np.abs(ildj - li) > tolj * (1 + np.abs(li)) * 5)[0]
+    bad = np.where(off(ildj, li, tolj * (1 + np.abs(li)) * 5))[0]
     if len(bad):
         i = bad[0]
         res.violation("bijector-ildj", f"inverse_log_det_jacobian({float(yq[i])}) = {ildj[i]}, log|g'(y)| = {li[i]}", {"x64": x64})
@@ -362,7 +362,7 @@ def case_bijector(case, res):
     ild2 = np.asarray(b.inverse_log_det_jacobian(y, event_ndims=0), np.float64)
     ild2 = np.asarray(AlgebraicSigmoid().inverse_log_det_jacobian(y_indep, event_ndims=0), np.float64)
     sel = np.abs(xs) < (1e3 if x64 else 5)
-    if np.any(np.abs(fldj[sel] + ild2[sel]) > (1e-6 * (1 + xs[sel] ** 2) if x64 else 2e-3)):
+    if np.any(off(fldj[sel], -ild2[sel], (1e-6 * (1 + xs[sel] ** 2) if x64 else 2e-3))):
         res.violation("bijector-ldj-consistency", "forward and inverse log-det-Jacobians are not negatives of each other", {"x64": x64})
     res.evals = len(x)
     res.nontriv(("bij", case["idx"], x64))
@@ -422,7 +422,7 @@ def case_copula(case, res):
     exp = copula_oracle(uu[:, 0], uu[:, 1], np.float64(np.asarray(jnp.asarray(rho, ft))))
     res.mon("copula_density_closed_form", n)
     rel = 1e-8 if x64 else 3e-3 / max(1e-3, (1 - abs(rho)))  # float32: conditioning grows as |rho| -> 1
-    bad = np.where(np.abs(got - exp) > rel * (1 + np.abs(exp)))[0]
+    bad = np.where(off(got, exp, rel * (1 + np.abs(exp))))[0]
     if len(bad):
         i = bad[0]
         res.violation("copula-density", f"log_prob(u={uu[i, 0]:.6g}, v={uu[i, 1]:.6g}; rho={rho}) = {got[i]}, closed form = {exp[i]}", w)
@@ -442,7 +442,7 @@ def case_copula(case, res):
             zz = ndtri(np.clip(s, 1e-12, 1 - 1e-12))
             rhat = np.mean(zz[:, 0] * zz[:, 1])
             se = np.sqrt((1 + rho ** 2) / ns)
-            if abs(rhat - rho) > 6 * se + 1e-3:
+            if off(rhat, rho, 6 * se + 1e-3):
                 res.violation("copula-dependence", f"samples have normal-score correlation {rhat:.4f}, dependence is {rho}", w)
     if abs(rho) > 0.1:
         res.nontriv(("cop", round(rho, 6), validate, x64))
@@ -475,7 +475,7 @@ def case_copula_batch(case, res):
     exp = copula_oracle(uu[..., 0], uu[..., 1], rr)
     res.mon("copula_density_closed_form", int(np.prod(bs)))
     rel = 1e-8 if x64 else 3e-2
-    if got.shape != exp.shape or np.any(np.abs(got - exp) > rel * (1 + np.abs(exp))):
+    if got.shape != exp.shape or np.any(off(got, exp, rel * (1 + np.abs(exp)))):
         res.violation("copula-density", f"batched copula (batch shape {bs}): log_prob {np.round(got, 4).tolist()} vs closed form "
                       f"{np.round(exp, 4).tolist()}", w)
     if tuple(d.batch_shape) != tuple(bs):
@@ -510,12 +510,12 @@ def case_mvn_batch_sample(case, res):
     Qr, lam_r, Q0 = Q[:, order[:r]], lamK[order[:r]], Q[:, order[r:]]
     for j, v in enumerate(vars_):
         sc = s[:, j, :] - loc
-        if np.abs(sc @ Q0).max() > 1e-8 * (1 + np.abs(sc).max()):
+        if not np.abs(sc @ Q0).max() <= 1e-8 * (1 + np.abs(sc).max()):
             res.violation("mvn-sample-nullspace", f"batch member {j}: samples leave the range space", w)
         y = (sc @ Qr) * np.sqrt(lam_r / v)
         zs = [(np.mean(y[:, i] ** 2) - 1) * np.sqrt(n / 2) for i in range(r)] + [y[:, i].mean() * np.sqrt(n) for i in range(r)]
         res.mon("mvn_sample_covariance", len(zs))
-        if max(abs(z) for z in zs) > 6:
+        if not all(abs(z) <= 6 for z in zs):
             res.violation("mvn-sample-covariance", f"batch member {j} (variance {v:.3g}): samples do not have covariance var*pinv(K): "
                           f"z-scores up to {max(abs(z) for z in zs):.1f}; sample variances along eigen-directions "
                           f"{np.round(np.var(sc @ Qr, axis=0), 6).tolist()} vs {np.round(v / lam_r, 6).tolist()}", w)
